@@ -219,22 +219,43 @@ def r6(fx):
                        and any(isinstance(a, ast.Assign) and ast.unparse(a.targets[0]) == ast.unparse(s.target) and isinstance(a.value, ast.Constant)
                                and a.value.value == 1 for a in src.statements(fn.body))})
     need(len(counters) == 2, f'mask_scores: two run counters expected, found {counters}')
+    env_ = ev.base_env(fx.forest, 'encoder')
     sites = {c: [] for c in counters}
     other = []
     for s in src.statements(fn.body):
-        if isinstance(s, ast.If):
-            b = pat.match(s.test, 'H_x >= H_c')
-            if b is not None and isinstance(b['x'], ast.Name) and b['x'].id in sites and isinstance(b['c'], ast.Constant):
-                sites[b['x'].id].append((s, b))
-            elif any(isinstance(n, ast.Name) and n.id in sites for n in ast.walk(s.test)) and not any(isinstance(o, ast.Eq) for c_ in ast.walk(s.test)
-                                                                                                        if isinstance(c_, ast.Compare) for o in c_.ops):
-                other.append(s)
+        if not isinstance(s, ast.If):
+            continue
+        used = [n.id for n in ast.walk(s.test) if isinstance(n, ast.Name) and n.id in sites]
+        if not used:
+            continue
+        if any(isinstance(o, ast.Eq) for c_ in ast.walk(s.test) if isinstance(c_, ast.Compare) for o in c_.ops) and \
+                not any(isinstance(k, ast.Constant) and isinstance(k.value, int) and k.value > 1 for k in ast.walk(s.test)):
+            continue        # the `current == previous` test that advances the counter
+        name = used[0]
+        consts_ = sorted({ev.ev(k, env_) for k in ast.walk(s.test) if isinstance(k, ast.Constant) and isinstance(k.value, int) and not isinstance(k.value, bool)})
+        if len(set(used)) != 1 or len(consts_) != 1:
+            other.append(s)
+            continue
+        thr = consts_[0]
+        pos = nf.prop(ast.parse(f'{name} >= {thr}', mode='eval').body)
+        t = nf.prop(s.test)
+        if nf.equiv(t, pos):
+            sites[name].append((s, thr, s.body, s.orelse))
+        elif nf.equiv(t, ('not', pos)):
+            sites[name].append((s, thr, s.orelse, s.body))
+        elif nf.equiv(t, nf.prop(ast.parse(f'{name} > {thr}', mode='eval').body)):
+            sites[name].append((s, thr + 1, s.body, s.orelse))
+        elif nf.equiv(t, ('not', nf.prop(ast.parse(f'{name} > {thr}', mode='eval').body))):
+            sites[name].append((s, thr + 1, s.orelse, s.body))
+        else:
+            other.append(s)
     yield ob('no N1 test of another shape', not other, fn, got=[ast.unparse(o.test) for o in other], want=[])
     for name, lst in sites.items():
         yield ob(f'{name}: two scoring sites (inside the scan, at the line end)', len(lst) == 2, fn, got=len(lst), want=2)
-        for s, b in lst:
-            thr = ev.ev(b['c'], {})
-            body = single(s.body, 'N1 scoring statement')
+        for s, thr, scoring, rest in lst:
+            scoring = [x for x in scoring if not isinstance(x, ast.Pass)]
+            rest = [x for x in rest if not isinstance(x, ast.Pass)]
+            body = single(scoring, 'N1 scoring statement')
             need(isinstance(body, ast.AugAssign) and isinstance(body.op, ast.Add) and isinstance(body.target, ast.Name), 'N1 scoring statement is not `score += ...`')
             try:
                 aff = nf.affine(body.value)
@@ -242,7 +263,7 @@ def r6(fx):
                 aff = None
             need(aff is not None and set(aff) <= {name, ''}, f'N1 score `{ast.unparse(body.value)}` is not an affine form of the run counter')
             yield ob(f'{name} site line-scan/line-end: threshold 5, score counter - 2',
-                     thr == 5 and aff == {name: 1, '': -2} and not s.orelse, s,
+                     thr == 5 and aff == {name: 1, '': -2} and not rest, s,
                      got=ast.unparse(s)[:90], want=f'if {name} >= 5: score_n1 += {name} - 2')
     # counters restart at 1, increment by 1
     for name in list(sites):
@@ -327,6 +348,11 @@ def r7(fx):
         pts = sorted({ev.ev(x.value, env) for x in sc})
         # locals defined once in the loop body before use (offset = idx + 7) are replaced by their definition
         ldefs = {}
+        # function-level locals that are plain arithmetic of other names (last_start = qr_size - 7) count as well
+        for k_, v_ in nf.single_defs(owner).items():
+            if isinstance(v_, (ast.BinOp, ast.UnaryOp)) and not any(isinstance(n_, (ast.Subscript, ast.Attribute, ast.Lambda)) for n_ in ast.walk(v_)) \
+                    and not any(isinstance(n_, ast.Name) and n_.id == iv for n_ in ast.walk(v_)):
+                ldefs[k_] = v_
         for a_ in w.body:
             if isinstance(a_, ast.Assign) and len(a_.targets) == 1 and isinstance(a_.targets[0], ast.Name) and a_.targets[0].id != iv:
                 ldefs[a_.targets[0].id] = a_.value
@@ -353,13 +379,13 @@ def r7(fx):
             c_, p_ = x, x._parent
             while p_ is not w:
                 if isinstance(p_, ast.If):
-                    t = Sub().visit(nf.clone(p_.test))
+                    t = Sub().visit(Sub().visit(nf.clone(p_.test)))
                     gs.append(nf.prop(t) if c_ in p_.body else ('not', nf.prop(t)))
                 c_, p_ = p_, p_._parent
             conds.append(('and', gs))
         got_f = ('or', conds)
         names = {n.id for x in sc for g in [x] for a_ in src.ancestors(x) if isinstance(a_, ast.If) and a_ is not w
-                 for n in ast.walk(Sub().visit(nf.clone(a_.test))) if isinstance(n, ast.Name)} - {iv} - set(dir(__import__('builtins')))
+                 for n in ast.walk(Sub().visit(Sub().visit(nf.clone(a_.test)))) if isinstance(n, ast.Name)} - {iv} - set(dir(__import__('builtins')))
         seq_names = {n.id for n in ast.walk(f.func.value) if isinstance(n, ast.Name)}
         size_names = sorted(names - seq_names)
         need(len(size_names) == 1, f'N3 scoring condition mentions {size_names} besides the line and the index: cannot tell the size variable')
